@@ -99,7 +99,7 @@ func VerifH_C05_stems() {
 	if verifChoose("width", 2) == 1 {
 		p.num("w", false)
 	}
-	nh := verifChoose("nh", 3) // pairs of hstem operands
+	nh := []int{0, 1, 2, 4, 8}[verifChoose("nh", verifParam("stemchoices", 4))] // pairs of hstem operands
 	for i := 0; i < 2*nh; i++ {
 		p.num("h", false)
 	}
@@ -111,7 +111,7 @@ func VerifH_C05_stems() {
 			p.op(t2hstem)
 		}
 	}
-	nv := verifChoose("nv", 3)
+	nv := []int{0, 1, 2, 4, 8}[verifChoose("nv", verifParam("stemchoices", 4))]
 	for i := 0; i < 2*nv; i++ {
 		p.num("v", false)
 	}
@@ -129,13 +129,17 @@ func VerifH_C05_stems() {
 		} else {
 			p.op(t2cntrmask)
 		}
-		p.code = append(p.code, verifU8("maskbits"))
+		for k := (nh + nv + 7) / 8; k > 0; k-- {
+			p.code = append(p.code, verifU8("maskbits"))
+		}
 	}
 	p.num("mx", false)
 	p.op(t2hmoveto)
 	if useMask == 1 && verifChoose("secondmask", 2) == 1 {
 		p.op(t2hintmask)
-		p.code = append(p.code, verifU8("maskbits"))
+		for k := (nh + nv + 7) / 8; k > 0; k-- {
+			p.code = append(p.code, verifU8("maskbits"))
+		}
 	}
 	p.num("lx", false)
 	p.op(t2hlineto)
